@@ -29,7 +29,7 @@ RULE = ("case = (source, function, inputs); non-trivial when >= 1 CALL was execu
         "(measured by the observer) and the frame monitor completed >= 1 comparison; distinct by (source, inputs).")
 ASSUMPTIONS = ["RefSem call semantics = statement of C03", "a changed *value* of a caller argument/local across a call is the violation; identities are diagnosis only"]
 SHARD_TIMEOUT = {"quick": 900, "thorough": 5400}
-BUDGET = {"quick": 120, "thorough": 4500}
+BUDGET = {"quick": 120, "thorough": 3000}
 FRAME_EVENTS = ("caller-args-changed", "caller-local-changed", "caller-local-vanished")
 
 
